@@ -107,9 +107,23 @@ func simOnce(script string, ch *mcx.Chooser) (obs, sig string, points int) {
 	// a blocking operation the scheduler does not see (range over a channel, select, sync.Cond ...) would
 	// park a scheduled thread for good: give up on this exploration instead of hanging the check
 	finished := make(chan struct{})
-	go func() { s.Run(); close(finished) }()
+	diverged := ""
+	go func() {
+		defer func() {
+			if r := recover(); r != nil {
+				// the same choices led to another set of enabled threads: something the scheduler does not own
+				// (a real goroutine, a real pipe, real time) takes part in this code
+				diverged = fmt.Sprint(r)
+			}
+			close(finished)
+		}()
+		s.Run()
+	}()
 	select {
 	case <-finished:
+		if diverged != "" {
+			return "inconclusive: the code under test is not deterministic under the scheduler (" + diverged + ")", "", 0
+		}
 	case <-time.After(20 * time.Second):
 		return "inconclusive: an execution that takes microseconds did not finish within 20 s - the code under test blocks outside the scheduler's view", "", 0
 	}
@@ -149,6 +163,10 @@ func simExplore(script string, maxExec int64) (sig, obs string, choices []int, e
 	ex = &mcx.Explorer{Bound: 1 << 20, FullAt: func(string) bool { return true }, MaxExec: maxExec, PruneSeenStates: true}
 	defer func() {
 		if r := recover(); r != nil && r != "stop" {
+			if msg := fmt.Sprint(r); strings.HasPrefix(msg, "mcx: replay divergence") {
+				inconclusive = "inconclusive: the code under test is not deterministic under the scheduler (" + msg + ")"
+				return
+			}
 			panic(r)
 		}
 	}()
